@@ -26,6 +26,10 @@ FILES = [b"x=1\ny=Two Words\n[A]\nx=Yes\nz=\n[B]\nw = \"q # t\" # c\n", b"# lead
          b"x=0x1F\n[A]\ny=-12\n[A]\nx=077\n", b"", b"[broken\n", b"k=v\nbad line without delimiter\n"]
 
 
+# configurations of a size at which a library might switch to another data structure (several hundred entries to merge)
+BIG_A = b"".join(b"[s%d]\n" % g + b"".join(b"k%d=a%d\n" % (k, k) for k in range(12)) for g in range(12))
+BIG_B = b"".join(b"[s%d]\n" % g + b"".join(b"k%d=b%d\n" % (k, k) for k in range(0, 24, 2)) for g in range(6, 18))
+
 LONGVAL = b"m=line0\n" + b"".join(b"   line%d of the value\n" % k for k in range(1, 40))
 
 
@@ -41,6 +45,22 @@ def thread_scenario(rng, sid, i, base):
             s.add("EXT", 0, "-", h(b"m"))
         s.add("GET", 0, "str", "-", h(b"k"))
         s.add("FREE", 0)
+    if rng.random() < 0.25:
+        # a large merge of the thread's own: two files of about 150 entries each, and the same as a layered read
+        s.file(pre + b"/big/usr/cfg.conf", BIG_A)
+        s.file(pre + b"/big/etc/cfg.conf.d/z.conf", BIG_B)
+        for _ in range(rng.randint(2, 6)):
+            s.add("RF", 0, h(pre + b"/big/usr/cfg.conf"), h(b"="), h(b"#"))
+            s.add("RF", 1, h(pre + b"/big/etc/cfg.conf.d/z.conf"), h(b"="), h(b"#"))
+            s.add("M", 2, 0, 1)
+            s.add("GET", 2, "str", h(b"s7"), h(b"k4"))
+            s.add("GET", 2, "str", h(b"s17"), h(b"k22"))
+            s.add("GET", 2, "str", h(b"s0"), h(b"k11"))
+            for k in (2, 1, 0):
+                s.add("FREE", k)
+            s.add("RD", 0, h(pre + b"/big/usr"), h(pre + b"/big/etc"), h(b"cfg"), h(b"conf"), h(b"="), h(b"#"))
+            s.add("GET", 0, "str", h(b"s9"), h(b"k6"))
+            s.add("FREE", 0)
     for _ in range(rng.randint(1, 3)):
         r = rng.random()
         if r < 0.4:
